@@ -283,3 +283,50 @@ pub fn scan_impl_constants() -> Vec<(String, String)> {
     }
     out
 }
+
+
+/// `pub fn` / `pub const fn` names declared in plain impl blocks of `ty` anywhere in /repo/src
+pub fn scan_impl_methods() -> Vec<(String, String)> {
+    let mut out = Vec::new();
+    let mut files: Vec<_> = std::fs::read_dir("/repo/src").map(|d| d.filter_map(|e| e.ok()).map(|e| e.path()).collect()).unwrap_or_default();
+    files.sort();
+    for f in files {
+        let Ok(s) = std::fs::read_to_string(&f) else { continue };
+        let mut rest = s.as_str();
+        while let Some(p) = rest.find("\nimpl ") {
+            let after = &rest[p + 6..];
+            rest = after;
+            let Some(ob) = after.find('{') else { break };
+            let header = after[..ob].trim();
+            if header.is_empty() || !header.chars().all(|c| c.is_alphanumeric() || c == '_') {
+                continue;
+            }
+            let mut depth = 1;
+            let mut end = ob + 1;
+            for (k, c) in after[ob + 1..].char_indices() {
+                if c == '{' {
+                    depth += 1;
+                } else if c == '}' {
+                    depth -= 1;
+                    if depth == 0 {
+                        end = ob + 1 + k;
+                        break;
+                    }
+                }
+            }
+            let body = &after[ob + 1..end];
+            for line in body.lines() {
+                let t = line.trim();
+                for pre in ["pub fn ", "pub const fn "] {
+                    if let Some(r) = t.strip_prefix(pre) {
+                        let name: String = r.chars().take_while(|c| c.is_alphanumeric() || *c == '_').collect();
+                        if !name.is_empty() {
+                            out.push((header.to_string(), name));
+                        }
+                    }
+                }
+            }
+        }
+    }
+    out
+}
